@@ -35,9 +35,14 @@ def case(g, tier, ci):
     for _ in range(r.randint(0, 5)):
         k = r.random()
         nm = r.choice(names) if names else "x"
-        if k < 0.35:
+        if k < 0.12:
+            # mark the segment that is currently last, or any
+            nmk = names[-1] if names and r.random() < 0.6 else nm
+            ops.append({"op": "bp.setSegMarker", "id": "b", "name": nmk, "specs": [q(r.choice([0, 1, -1]) / SR), q(r.choice([1, 2, 3]) / SR)],
+                        "mid": r.choice([1, 2])})
+        elif k < 0.35:
             n = r.randint(2, 12)
-            ops.append({"op": "bp.insert", "id": "b", "pos": r.randint(0, len(names)), "fn": "ramp", "args": [0, 1],
+            ops.append({"op": "bp.insert", "id": "b", "pos": r.choice([-1, -1, r.randint(0, len(names)), 0]), "fn": "ramp", "args": [0, 1],
                         "dur": enc(n / SR), "name": {"s": r.choice(["ins", "ramp", "a"])}})
         elif k < 0.55:
             ops.append({"op": "bp.remove", "id": "b", "name": nm})
